@@ -1,10 +1,107 @@
-"""C03 - see lib/props/_shm.py (measured configuration, schedules, engine/model runs, oracles)."""
+"""C03 - snapshots never go back in time and catch up once the writer is idle.
+Theorems: Properties/C03.v.  Tie to the code: lib/props/_shm.py (measured configuration, SC
+schedules, engine/model runs, monotonicity/freshness oracles) + the generated Current_C03.v, which
+must prove the side condition `safe_cfg current_cfg = true` of the theorems and instantiates them
+with the configuration measured from the running code.  When the side condition fails the
+release/acquire machine is searched for an execution after which a quiescent, sequentially
+consistent call still returns an older publication (or a call returns a mixture)."""
+import itertools
+import common as c
 from props import _shm
 
 
+def ra_search(cfg, res):
+    """one reader attached after publication 1; publication 2 completes; the reader's call may
+    read any event the machine admits; then a second, sequentially consistent call with the writer
+    idle.  Failing: a returned record that is a mixture, or the second call returning publication 1."""
+    w1 = 9 + (1 if cfg["w_fence"] is not None else 0) + 1
+    base = 2 + _shm.NCELL + 1
+    even1, even2 = base + 8, base + 17
+    cells1 = [base + 1 + i for i in range(_shm.NCELL)]
+    cells2 = [base + 10 + i for i in range(_shm.NCELL)]
+    pre = [("W",)] * w1 + [("N",)] + [("W",)] * w1
+    fence = [("R", 0, None)] if cfg["r_fence"] is not None else []
+    lines, scheds = [], []
+    for g1 in (even1, even2):
+        for g2 in (even1, even2):
+            for mix in itertools.product((0, 1), repeat=_shm.NCELL):
+                order = cfg["r_order"]
+                toks = list(pre) + [("R", 0, None), ("R", 0, g1)]
+                toks += [("R", 0, (cells1 if mix[i] == 0 else cells2)[i]) for i in order]
+                toks += fence + [("R", 0, g2)]
+                toks += [("R", 0, None)] * (4 + _shm.NCELL)            # a second, SC call
+                scheds.append(toks)
+                lines.append(_shm.line_of(cfg, toks))
+    outs = c.run_model(lines)
+    res.evaluations += len(lines)
+    res.count("ra-search:candidate executions", len(lines))
+    for toks, out in zip(scheds, outs):
+        rets = [ob for ob in _shm.parse_obs(out) if ob["t"] == "T"]
+        for ob in rets:
+            if ob["ret"] == "F" and _shm.rec_index(ob["cells"]) is None:
+                return toks, out, "a call returns a mixture of publications 1 and 2"
+        if len(rets) >= 2 and rets[0]["ret"] == "F" and rets[1]["ret"] in ("F", "C") and rets[1]["cells"] is not None \
+                and _shm.rec_index(rets[1]["cells"]) == 1:
+            return toks, out, ("the first call caches publication 1 under the generation of publication 2; the second call runs sequentially "
+                               "consistently with the writer idle and is served publication 1 although publication 2 is complete")
+    return None, None, None
+
+
+BODY = ("From CB Require Import SeqlockInv GenCyc SeqlockRA SeqlockMono SeqlockFresh.\nFrom CB.Properties Require Import C03.\n"
+        "Theorem current_cfg_safe : safe_cfg current_cfg = true.\nProof. vm_compute. reflexivity. Qed.\n"
+        "Theorem current_retries_positive : (0 < c_retries current_cfg)%N.\nProof. vm_compute. reflexivity. Qed.\n"
+        "Definition C03_monotone_for_the_running_code := fun ts m o => C03_monotone_RA_window current_cfg ts m o current_cfg_safe.\n"
+        "Definition C03_fresh_for_the_running_code := fun ts m o j r q e => C03_fresh_exact current_cfg ts m o j r q e current_cfg_safe current_retries_positive.\n"
+        "Check C03_monotone_for_the_running_code : forall ts m o, Forall real_token ts -> m_run (m_init current_cfg) ts = (m, o) ->\n"
+        "  run_windows (m_init current_cfg) ts -> sorted_from (fun _ => 0%nat) o.\n"
+        "Print Assumptions C03_monotone_for_the_running_code.\nPrint Assumptions C03_fresh_for_the_running_code.\n")
+
+
 def run(res, proofs_ok, proofs_why):
-    _shm.run_property("C03", res, proofs_ok, proofs_why)
+    cfg, binary = _shm.run_property("C03", res, proofs_ok, proofs_why)
+    if cfg is None:
+        return
+    ok, log = _shm.current_obligation(cfg, "C03", BODY)
+    res.oblige("Current_C03.v: safe_cfg current_cfg = true and 0 < retry budget for the configuration measured from the running code; "
+               "C03_monotone_RA_window and C03_fresh_exact instantiated with it", ok)
+    res.extra["current_cfg_coq"] = _shm.coq_cfg(cfg)
+    if not ok:
+        toks, out, why = ra_search(cfg, res)
+        if toks:
+            res.violation({"property": "C03", "kind": "history",
+                           "case": {"schedule": _shm.tok_str(toks), "model_execution": out,
+                                    "why": ["under the release/acquire model, with the orderings and fences measured from the running code: " + why +
+                                            " (R j k = the load returns event k of the writer's log)"]},
+                           "obligation": "safe_cfg current_cfg = true fails: " + log[-600:],
+                           "measured_cfg": cfg, "how_to_replay": "./check C03 --replay <this file>"})
+        else:
+            res.violation({"property": "C03", "kind": "obligation",
+                           "obligation": "Current_C03.v: the side conditions of C03_monotone_RA_window / C03_fresh_exact do not hold for the measured configuration: " + log[-800:],
+                           "measured_cfg": cfg}, found_input=False)
+    res.assumptions.append("window condition of C03_monotone_RA_window / C03_fresh_exact: no snapshot() iteration spans 32767 or more completed publications")
+    res.assumptions.append("freshness is proved for sequentially consistent calls (release/acquire gives no real-time guarantee without a happens-before edge)")
 
 
 def replay(res, path):
+    import json
+    r = json.load(open(path))
+    case = r.get("case") or {}
+    if "model_execution" in case:
+        binary = c.build_harness("debug")[0]
+        cfg, _, why = _shm.measure_cfg(binary)
+        if cfg is None:
+            print("configuration cannot be measured: " + why)
+            return 1
+        toks = _shm.parse_tok_str(case["schedule"])
+        out = c.run_model([_shm.line_of(cfg, toks)])[0]
+        print("measured configuration:", cfg)
+        print("model execution:", out)
+        rets = [ob for ob in _shm.parse_obs(out) if ob["t"] == "T"]
+        bad = any(ob["ret"] == "F" and _shm.rec_index(ob["cells"]) is None for ob in rets) or \
+            (len(rets) >= 2 and rets[1]["cells"] is not None and _shm.rec_index(rets[1]["cells"]) == 1)
+        if bad:
+            print("VIOLATION property=C03 replay=%s" % path)
+            return 1
+        print("the machine, with the configuration measured now, no longer admits this execution")
+        return 0
     return _shm.replay_property("C03", res, path)
